@@ -34,6 +34,7 @@ func ip(n int) *int { return &n }
 
 func runC04(x *X) {
 	runC04FromCallback(x)
+	runUpdateFromCallback(x, "C04")
 	decors := []DecorChoice{namedDecor(decoration.D_UTF8_HEAVY), namedDecor(decoration.D_ASCII_SIMPLE), namedDecor(decoration.D_NONE)}
 	if x.Thorough() {
 		decors = nil
